@@ -161,7 +161,119 @@ def t_invert_if(fn):
     return changed
 
 
-TRANSFORMS = {'rename': t_rename, 'hoist': t_hoist, 'comp2loop': t_comp2loop, 'invert-if': t_invert_if}
+def _pure(e) -> bool:
+    return not any(isinstance(x, (ast.Call, ast.Await, ast.Yield, ast.YieldFrom, ast.NamedExpr)) for x in ast.walk(e))
+
+
+def t_eq_swap(fn):
+    changed = False
+    for n in own_nodes(fn):
+        if isinstance(n, ast.Compare) and len(n.ops) == 1 and isinstance(n.ops[0], (ast.Eq, ast.NotEq)) and \
+                _pure(n.left) and _pure(n.comparators[0]):
+            n.left, n.comparators[0] = n.comparators[0], n.left
+            changed = True
+    return changed
+
+
+def t_fstring_concat(fn):
+    """f'a{x}b'  ->  'a' + f'{x}' + 'b'   (same text; each hole keeps its own f-string)"""
+    changed = False
+
+    class T(ast.NodeTransformer):
+        def visit_JoinedStr(self, node):
+            nonlocal changed
+            self.generic_visit(node)
+            if len(node.values) < 2:
+                return node
+            parts = []
+            for v in node.values:
+                parts.append(v if isinstance(v, ast.Constant) else ast.JoinedStr(values=[v]))
+            out = parts[0]
+            for p_ in parts[1:]:
+                out = ast.BinOp(left=out, op=ast.Add(), right=p_)
+            changed = True
+            return out
+
+        def visit_FormattedValue(self, node):
+            return node          # do not rewrite format specs
+
+        def visit_FunctionDef(self, node):
+            return node if node is not fn else self.generic_visit(node)
+
+    T().visit(fn)
+    return changed
+
+
+def t_swap_adjacent(fn):
+    changed = False
+
+    def names(e):
+        return {x.id for x in ast.walk(e) if isinstance(x, ast.Name)}
+
+    def rewrite(block):
+        nonlocal changed
+        i = 0
+        while i < len(block) - 1:
+            a, b = block[i], block[i + 1]
+            if all(isinstance(s, ast.Assign) and len(s.targets) == 1 and isinstance(s.targets[0], ast.Name) and _pure(s.value)
+                   for s in (a, b)):
+                ta, tb = a.targets[0].id, b.targets[0].id
+                if ta != tb and ta not in names(b.value) and tb not in names(a.value):
+                    block[i], block[i + 1] = b, a
+                    changed = True
+                    i += 2
+                    continue
+            i += 1
+        for st in block:
+            for fld in ('body', 'orelse', 'finalbody'):
+                sub = getattr(st, fld, None)
+                if isinstance(sub, list) and not isinstance(st, (ast.FunctionDef, ast.AsyncFunctionDef, ast.ClassDef)):
+                    rewrite(sub)
+
+    rewrite(fn.body)
+    return changed
+
+
+_DATACLASS_FIELDS = None
+
+
+def dataclass_fields():
+    """class name -> ordered field names, for the dataclasses of the package (names assumed unique)."""
+    global _DATACLASS_FIELDS
+    if _DATACLASS_FIELDS is None:
+        sys.path.insert(0, ROOT)
+        from dznverif.model import Program
+        prog = Program(SRC)
+        out = {}
+        names = {}
+        for c in prog.classes.values():
+            names[c.name] = names.get(c.name, 0) + 1
+            if c.is_dataclass and prog.lookup_method(c, '__init__') is None:
+                out.setdefault(c.name, []).append(list(prog.class_fields(c)))
+        # only class names that are unique in the whole package (ast.Comment vs cpp_gen.Comment ...)
+        _DATACLASS_FIELDS = {k: v[0] for k, v in out.items() if len(v) == 1 and names[k] == 1}
+    return _DATACLASS_FIELDS
+
+
+def t_kwargs(fn):
+    """Foo(a, b)  ->  Foo(x=a, y=b) for dataclass constructors of the package"""
+    changed = False
+    flds = dataclass_fields()
+    for n in own_nodes(fn):
+        if isinstance(n, ast.Call) and n.args and not any(isinstance(a, ast.Starred) for a in n.args):
+            name = n.func.id if isinstance(n.func, ast.Name) else n.func.attr if isinstance(n.func, ast.Attribute) else None
+            if name in flds and len(n.args) <= len(flds[name]) and name[:1].isupper():
+                given = {k.arg for k in n.keywords}
+                new_kw = [ast.keyword(arg=f, value=a) for f, a in zip(flds[name], n.args)]
+                if not (given & {k.arg for k in new_kw}):
+                    n.keywords = new_kw + n.keywords
+                    n.args = []
+                    changed = True
+    return changed
+
+
+TRANSFORMS = {'rename': t_rename, 'hoist': t_hoist, 'comp2loop': t_comp2loop, 'invert-if': t_invert_if,
+              'eq-swap': t_eq_swap, 'fstring-concat': t_fstring_concat, 'swap-adjacent': t_swap_adjacent, 'kwargs': t_kwargs}
 
 
 def module_files():
